@@ -59,6 +59,9 @@ func (m *vestMachine) commonClasses() (cl []string) {
 	if m.rewardAddressSet > 0 {
 		cl = append(cl, "owner_registered_another_reward_address")
 	}
+	if m.typesRemoved > 0 {
+		cl = append(cl, "vesting_type_removed_while_pools_name_it")
+	}
 	return cl
 }
 
